@@ -208,6 +208,116 @@ Section Spec.
   Qed.
 End Spec.
 
+Lemma fold_or_insert_in holder e : forall (l : list kt) acc,
+  In e (fold_left (fun acc k => if mem_entry (k, holder) acc then acc else acc ++ [(k, holder)]) l acc) ->
+  In e acc \/ exists k, In k l /\ e = (k, holder).
+Proof.
+  induction l as [|k l IHl]; intros acc Hi; cbn [fold_left] in Hi; [left; exact Hi|].
+  apply IHl in Hi. destruct Hi as [Hi|(k' & Hk' & E)]; [|right; exists k'; split; [right; exact Hk'|exact E]].
+  match type of Hi with context [if ?c then _ else _] => destruct c end; [left; exact Hi|].
+  apply in_app_or in Hi as [Hi|[<-|[]]]; [left; exact Hi|].
+  right. exists k. split; [left; reflexivity|reflexivity].
+Qed.
+
+
+(* ------------------------------------------------------------------ the fullness bound
+   farthest_acceptable_distance: exact integer comparison, only ever shrinks, equals the minimum of the
+   notified distances, and nothing farther than it is queued, in flight or accepted *)
+Section Bound.
+  Variable dk : bytes -> N.
+  Notation ed := (edist dk).
+
+  Definition within (far : option N) (l : list entry) : Prop :=
+    match far with Some f => forall e, In e l -> ed e <= f | None => True end.
+
+  Definition min_with (far : option N) (d : N) : N := match far with Some o => N.min o d | None => d end.
+
+  Lemma full_none far P O : set_farthest_on_full dk far None P O = (P, O, far).
+  Proof. reflexivity. Qed.
+
+  Lemma full_purge_exact far key P O : within far P -> within far O ->
+    let b := min_with far (dk key) in
+    let '(P', O', far') := set_farthest_on_full dk far (Some key) P O in
+    far' = Some b /\
+    (forall e, In e P' <-> In e P /\ ed e <= b) /\
+    (forall e, In e O' <-> In e O /\ ed e <= b).
+  Proof.
+    intros HP HO. cbn zeta. unfold set_farthest_on_full. cbn zeta. destruct far as [old|]; cbn [min_with within] in *.
+    - destruct (N.leb_spec old (dk key)) as [Hle|Hgt].
+      + rewrite N.min_l by exact Hle. split; [reflexivity|].
+        split; intros e; (split; [intros Hi; split; [exact Hi|auto]|tauto]).
+      + rewrite N.min_r by lia. split; [reflexivity|].
+        split; intros e; rewrite filter_In, N.leb_le; reflexivity.
+    - split; [reflexivity|]. split; intros e; rewrite filter_In, N.leb_le; reflexivity.
+  Qed.
+
+  Lemma within_sub far l l' : (forall e, In e l' -> In e l) -> within far l -> within far l'.
+  Proof. destruct far as [f|]; cbn [within]; [intros Hs Hw e He; apply Hw, Hs, He|auto]. Qed.
+
+  Lemma step_pre_within far range st P O : within far P -> within far O ->
+    let '(p1, o1, far1) := step_pre dk far range st P O in
+    far1 = notify_min dk far st /\ within far1 p1 /\ within far1 o1.
+  Proof.
+    intros HP HO. destruct st as [holder ks|k t|k t| |fin]; cbn [step_pre notify_min].
+    - split; [reflexivity|]. split; [|exact HO].
+      destruct far as [f|]; cbn [within] in *; [|exact I].
+      intros e He. apply fold_or_insert_in in He. destruct He as [He|(k & Hk & ->)]; [apply HP, He|].
+      assert (Hw : In k (filter (fun k : kt => dk (fst k) <=? f) ks)).
+      { destruct range; [apply filter_In in Hk; tauto|exact Hk]. }
+      apply filter_In in Hw as [_ Hw]. apply N.leb_le in Hw. exact Hw.
+    - split; [reflexivity|]. split; [apply (within_sub far P)|apply (within_sub far O)]; try assumption; intros e He; apply filter_In in He; tauto.
+    - split; [reflexivity|]. split; [apply (within_sub far P)|apply (within_sub far O)]; try assumption; intros e He; apply filter_In in He; tauto.
+    - split; [reflexivity|]. split; assumption.
+    - destruct fin as [key|]; [|split; [reflexivity|split; assumption]].
+      pose proof (full_purge_exact far key P O HP HO) as Hx. cbn zeta in Hx.
+      destruct (set_farthest_on_full dk far (Some key) P O) as [[P' O'] far'].
+      destruct Hx as (-> & HP' & HO'). split; [destruct far; reflexivity|].
+      cbn [within]. split; intros e He; [apply HP' in He|apply HO' in He]; tauto.
+  Qed.
+
+  Lemma scheduled_within far maxp p1 o1 picked : within far p1 -> within far o1 ->
+    fetch_spec dk maxp p1 (map entry_kt o1) picked ->
+    within far (filter (fun e => negb (mem_entry e picked)) p1) /\ within far (o1 ++ picked).
+  Proof.
+    intros H1 H2 (_ & Hin & _). split.
+    - eapply within_sub; [|exact H1]. intros e He. apply filter_In in He. tauto.
+    - destruct far as [f|]; cbn [within] in *; [|exact I].
+      intros e He. apply in_app_or in He as [He|He]; [apply H2, He|apply H1, (Hin e He)].
+  Qed.
+
+  Definition state_far (s : list entry * list entry * option N) : option N := snd s.
+  Definition state_within (s : list entry * list entry * option N) : Prop :=
+    within (snd s) (fst (fst s)) /\ within (snd s) (snd (fst s)).
+
+  Lemma fetch_step_model_inv maxp range s st : state_within s ->
+    state_far (fetch_step_model dk maxp range s st) = notify_min dk (state_far s) st /\
+    state_within (fetch_step_model dk maxp range s st).
+  Proof.
+    destruct s as [[P O] far]. unfold state_within, state_far. cbn [fst snd]. intros [HP HO].
+    unfold fetch_step_model.
+    pose proof (step_pre_within far range st P O HP HO) as Hs.
+    destruct (step_pre dk far range st P O) as [[p1 o1] far1]. destruct Hs as (-> & Hp1 & Ho1).
+    destruct (is_full_step st); cbn [fst snd]; [split; [reflexivity|split; assumption]|].
+    cbn zeta. cbn [fst snd]. split; [reflexivity|].
+    apply (scheduled_within _ maxp); [exact Hp1|exact Ho1|apply next_keys_spec].
+  Qed.
+
+  (* every history: the bound is the minimum of the notified distances, and nothing queued or in flight
+     is farther than it *)
+  Lemma fetch_run_bound maxp range steps :
+    state_far (fetch_run dk maxp range steps) = notified_min dk steps /\
+    state_within (fetch_run dk maxp range steps).
+  Proof.
+    unfold fetch_run, notified_min.
+    assert (G : forall steps s, state_within s ->
+      state_far (fold_left (fetch_step_model dk maxp range) steps s) = fold_left (notify_min dk) steps (state_far s) /\
+      state_within (fold_left (fetch_step_model dk maxp range) steps s)).
+    { clear steps. induction steps as [|st r IH]; intros s Hs; cbn [fold_left]; [split; [reflexivity|exact Hs]|].
+      destruct (fetch_step_model_inv maxp range s st Hs) as [E Hw]. rewrite <- E. apply IH. exact Hw. }
+    apply (G steps ([], [], None)). unfold state_within. cbn. split; exact I.
+  Qed.
+End Bound.
+
 (* the acceptor only looks at the distances of the entries it is given: evaluating it with distances
    computed once and looked up (as the case files do) is evaluating it with the real distances *)
 Lemma forallb_ext_in {A} (f g : A -> bool) (l : list A) :
@@ -257,58 +367,75 @@ Section Table.
     rewrite (Hx x (or_introl eq_refl)), IH; [reflexivity|]. intros y Hy. apply Hx. right. exact Hy.
   Qed.
 
-  Definition step_keys (st : fstep) : list kt := match st with FAdd _ ks => ks | _ => [] end.
-
-  Lemma step_pre_ext dk dk' range st P O :
-    (forall k, In k (step_keys st) -> dk (fst k) = dk' (fst k)) ->
-    step_pre dk range st P O = step_pre dk' range st P O.
+  (* record keys whose distance an operation looks at, besides those of the entries it is given *)
+  Lemma filter_filter_ext {A} (f f' g g' : A -> bool) (l : list A) :
+    (forall x, In x l -> f x = f' x) -> (forall x, In x l -> g x = g' x) ->
+    filter g (filter f l) = filter g' (filter f' l).
   Proof.
-    intros Hext. destruct st as [holder ks| | |]; try reflexivity.
-    cbn [step_pre]. destruct range as [r|]; [|reflexivity].
-    rewrite (filter_ext_in' _ (fun k => convert_distance_to_u256 (dk' (fst k)) <=? r) ks); [reflexivity|].
-    intros k Hk. rewrite (Hext k Hk). reflexivity.
+    intros Hf Hg. rewrite (filter_ext_in' f f' l Hf). apply filter_ext_in'.
+    intros x Hx. apply filter_In in Hx. apply Hg. tauto.
+  Qed.
+
+  Definition step_dkeys (st : fstep) : list bytes :=
+    match st with FAdd _ ks => map fst ks | FFull (Some k) => [k] | _ => [] end.
+
+  Lemma step_pre_ext dk dk' far range st P O :
+    (forall k, In k (step_dkeys st ++ map entry_key P ++ map entry_key O) -> dk k = dk' k) ->
+    step_pre dk far range st P O = step_pre dk' far range st P O.
+  Proof.
+    intros Hext. destruct st as [holder ks| | | |fin]; try reflexivity.
+    - assert (Hk : forall k : kt, In k ks -> dk (fst k) = dk' (fst k)).
+      { intros k Hk. apply Hext. apply in_or_app. left. cbn [step_dkeys]. apply in_map. exact Hk. }
+      cbn [step_pre]. cbn zeta. f_equal. f_equal. f_equal.
+      destruct far as [f|]; destruct range as [r|]; try reflexivity.
+      + apply filter_filter_ext; intros k Hi; rewrite (Hk k Hi); reflexivity.
+      + apply filter_ext_in'. intros k Hi. rewrite (Hk k Hi). reflexivity.
+      + apply filter_ext_in'. intros k Hi. rewrite (Hk k Hi). reflexivity.
+    - cbn [step_pre]. destruct fin as [key|]; [|reflexivity]. unfold set_farthest_on_full. cbn zeta.
+      rewrite (Hext key) by (apply in_or_app; left; left; reflexivity).
+      destruct (match far with Some old => old <=? dk' key | None => false end); [reflexivity|].
+      f_equal. f_equal; apply filter_ext_in'; intros e He; unfold edist; rewrite (Hext (entry_key e)); try reflexivity.
+      + apply in_or_app. right. apply in_or_app. left. apply in_map. exact He.
+      + apply in_or_app. right. apply in_or_app. right. apply in_map. exact He.
   Qed.
 
   (* entries of the backlog a scheduling call starts from come from the recorded backlog or from the advert *)
-  Lemma step_pre_keys dk range st P O e :
-    In e (fst (step_pre dk range st P O)) -> In (entry_key e) (map fst (step_keys st) ++ map entry_key P).
+  Lemma step_pre_keys dk far range st P O e :
+    In e (fst (fst (step_pre dk far range st P O))) -> In (entry_key e) (step_dkeys st ++ map entry_key P).
   Proof.
-    destruct st as [holder ks|k t|k t|]; cbn [step_pre fst step_keys map app].
-    - set (inr := match range with Some r => filter (fun k => convert_distance_to_u256 (dk (fst k)) <=? r) ks | None => ks end).
-      assert (Hsub : forall k, In k inr -> In k ks).
-      { subst inr. destruct range; [intros k Hk; apply filter_In in Hk; tauto|auto]. }
-      clearbody inr.
-      assert (G : forall l acc, (forall k, In k l -> In k ks) ->
-                  In e (fold_left (fun acc k => if mem_entry (k, holder) acc then acc else acc ++ [(k, holder)]) l acc) ->
-                  In e acc \/ In (entry_key e) (map fst ks)).
-      { induction l as [|k l IHl]; intros acc Hl Hi; cbn [fold_left] in Hi; [left; exact Hi|].
-        apply IHl in Hi; [|intros k' Hk'; apply Hl; right; exact Hk'].
-        destruct Hi as [Hi|Hi]; [|right; exact Hi].
-        match type of Hi with context [if ?c then _ else _] => destruct c end; [left; exact Hi|].
-        apply in_app_or in Hi as [Hi|[<-|[]]]; [left; exact Hi|].
-        right. unfold entry_key. cbn [fst]. apply in_map. apply Hl. left. reflexivity. }
-      intros Hi. apply (G inr P Hsub) in Hi. apply in_or_app.
-      destruct Hi as [Hi|Hi]; [right; apply in_map; exact Hi|left; exact Hi].
+    destruct st as [holder ks|k t|k t| |fin]; cbn [step_pre fst step_dkeys app].
+    - intros Hi. apply fold_or_insert_in in Hi. apply in_or_app.
+      destruct Hi as [Hi|(k & Hk & ->)]; [right; apply in_map; exact Hi|left].
+      unfold entry_key. cbn [fst]. apply in_map.
+      assert (Hw : In k (match far with Some f => filter (fun k : kt => dk (fst k) <=? f) ks | None => ks end)).
+      { destruct range; [apply filter_In in Hk; tauto|exact Hk]. }
+      destruct far; [apply filter_In in Hw; tauto|exact Hw].
     - intros Hi. apply filter_In in Hi as [Hi _]. apply in_map. exact Hi.
     - intros Hi. apply filter_In in Hi as [Hi _]. apply in_map. exact Hi.
     - intros Hi. apply in_map. exact Hi.
+    - intros Hi. apply in_or_app. right. apply in_map.
+      destruct fin as [key|]; cbn [set_farthest_on_full] in Hi; [|exact Hi].
+      unfold set_farthest_on_full in Hi. cbn zeta in Hi.
+      destruct (match far with Some old => old <=? dk key | None => false end); cbn [fst] in Hi; [exact Hi|].
+      apply filter_In in Hi. tauto.
   Qed.
 
-  Lemma agree_fetch_step_ext dk dk' maxp range st pre_p pre_o picked post_p post_o :
-    (forall k, In k (map fst (step_keys st) ++ map entry_key pre_p ++ map entry_key picked) -> dk k = dk' k) ->
-    agree_fetch_step dk maxp range st pre_p pre_o picked post_p post_o =
-    agree_fetch_step dk' maxp range st pre_p pre_o picked post_p post_o.
+  Lemma agree_fetch_step_ext dk dk' maxp range st pre_p pre_o pre_far picked post_p post_o post_far :
+    (forall k, In k (step_dkeys st ++ map entry_key pre_p ++ map entry_key pre_o ++ map entry_key picked) -> dk k = dk' k) ->
+    agree_fetch_step dk maxp range st pre_p pre_o pre_far picked post_p post_o post_far =
+    agree_fetch_step dk' maxp range st pre_p pre_o pre_far picked post_p post_o post_far.
   Proof.
     intros Hext. unfold agree_fetch_step.
-    rewrite (step_pre_ext dk dk' range st pre_p pre_o).
-    2:{ intros k Hk. apply Hext. apply in_or_app. left. apply in_map. exact Hk. }
-    pose proof (step_pre_keys dk' range st pre_p pre_o) as Hkeys.
-    destruct (step_pre dk' range st pre_p pre_o) as [p1 o1]. cbn [fst] in Hkeys.
+    rewrite (step_pre_ext dk dk' pre_far range st pre_p pre_o).
+    2:{ intros k Hk. apply Hext. apply in_app_or in Hk as [A|A]; apply in_or_app; [left; exact A|right].
+        apply in_app_or in A as [A|A]; apply in_or_app; [left; exact A|right]. apply in_or_app. left. exact A. }
+    pose proof (step_pre_keys dk' pre_far range st pre_p pre_o) as Hkeys.
+    destruct (step_pre dk' pre_far range st pre_p pre_o) as [[p1 o1] far1]. cbn [fst] in Hkeys.
     rewrite (sched_ok_ext dk dk' maxp p1 (map entry_kt o1) picked); [reflexivity|].
     intros e [He|He]; apply Hext.
     - specialize (Hkeys e He). apply in_app_or in Hkeys as [A|A]; apply in_or_app; [left; exact A|].
       right. apply in_or_app. left. exact A.
-    - apply in_or_app. right. apply in_or_app. right. apply in_map. exact He.
+    - apply in_or_app. right. apply in_or_app. right. apply in_or_app. right. apply in_map. exact He.
   Qed.
 
   (* what the case files evaluate (distances looked up in a table) is the agreement with the real
@@ -316,16 +443,17 @@ Section Table.
   Lemma agree_fetch_sched_sound self_peer maxp range keys steps :
     agree_fetch_sched H self_peer maxp range keys steps = true ->
     maxp = Consts.fetcher_max_parallel /\
-    forall st pre_p pre_o picked post_p post_o, In (st, (pre_p, pre_o), picked, (post_p, post_o)) steps ->
-      agree_fetch_step (key_dist H self_peer) maxp range st pre_p pre_o picked post_p post_o = true.
+    forall st pre_p pre_o pre_far picked post_p post_o post_far,
+      In (st, (pre_p, pre_o, pre_far), picked, (post_p, post_o, post_far)) steps ->
+      agree_fetch_step (key_dist H self_peer) maxp range st pre_p pre_o pre_far picked post_p post_o post_far = true.
   Proof.
     unfold agree_fetch_sched. cbn zeta. rewrite andb_true_iff, N.eqb_eq, forallb_forall.
     intros [Hm Hall]. split; [exact Hm|].
-    intros st pre_p pre_o picked post_p post_o Hin. specialize (Hall _ Hin).
+    intros st pre_p pre_o pre_far picked post_p post_o post_far Hin. specialize (Hall _ Hin).
     apply andb_true_iff in Hall as [Hk Hs]. rewrite forallb_forall in Hk.
     rewrite <- Hs. apply agree_fetch_step_ext.
     intros k Hkin. symmetry. apply lookup_dist_table. apply mem_bytes_in. apply Hk.
-    unfold record_keys. destruct st; exact Hkin.
+    unfold record_keys. destruct st as [? ?| | | |[?|]]; exact Hkin.
   Qed.
 
   (* the scheduler at the real distance *)
@@ -357,4 +485,19 @@ Example fetch_schedule_example :
   sched_ok (key_dist sha256 ex_self) 3 ex_pending [closest] out = true /\
   (* handing out the third and fourth closest instead is rejected *)
   sched_ok (key_dist sha256 ex_self) 3 ex_pending [closest] (firstn 2 (skipn 2 order)) = false.
+Proof. vm_compute. repeat split; reflexivity. Qed.
+
+(* two 'store full' notifications: the farthest of 8 advertised keys (nothing to purge), then the
+   4th closest: exactly the four entries within the new bound survive, queued or in flight *)
+Example fullness_example :
+  let dk := key_dist sha256 ex_self in
+  let ks := map ex_key [1; 2; 3; 4; 5; 6; 7; 8] in
+  let order := sort_on dk ks in
+  let k_far := nth 7 order [] in
+  let k_mid := nth 3 order [] in
+  let steps := [FAdd ex_hA (map (fun k => (k, 0)) ks); FFull (Some k_far); FFull None; FFull (Some k_mid); FFull (Some k_far)] in
+  let '(pq, oq, far) := fetch_run dk 3 None steps in
+  far = Some (dk k_mid) /\ dk k_mid < dk k_far /\
+  (List.length pq + List.length oq = 4)%nat /\
+  forallb (fun e => edist dk e <=? dk k_mid) (pq ++ oq) = true.
 Proof. vm_compute. repeat split; reflexivity. Qed.
